@@ -8,10 +8,19 @@ package server
 
 import (
 	"bufio"
+	"context"
 	"encoding/json"
 	"os"
 	"testing"
 )
+
+// vCancelledCtx returns an already cancelled context: a commit-log reader that
+// would block returns immediately instead (non-blocking drain).
+func vCancelledCtx() context.Context {
+	ctx, cancel := context.WithCancel(context.Background())
+	cancel()
+	return ctx
+}
 
 // ---- stimulus / trace I/O -------------------------------------------------
 
